@@ -20,15 +20,15 @@ SHAPES = [dict(n_creds=2, eq=True), dict(n_creds=3, eq=True), dict(n_creds=2, eq
 
 def honest_equalities(ctx):
     """the other half of the property: an honest holder whose referenced values are identical always succeeds,
-    however the verifier writes the equalities (one statement, a chain of pairwise statements, a star)"""
+    however the verifier writes the equalities (one statement, a chain of pairwise statements in either member order, a star in either order, overlapping statements with shuffled members)"""
     import random
     import common as C
     import create_common as CC
     rng = random.Random(ctx["seed"] + 9)
     cs = []
-    for i in range(60 if ctx["tier"] == "thorough" else 12):
+    for i in range(120 if ctx["tier"] == "thorough" else 24):
         n = 3 + (i % 2)
-        s = CC.gen(rng, "ps" if i % 2 else "bbs", n_creds=n, kinds=["eq", "comm"], eq_shape=["chain", "star", "one"][i % 3])
+        s = CC.gen(rng, "ps" if i % 2 else "bbs", n_creds=n, kinds=["eq", "comm"], eq_shape=["chain", "star", "one", "chain_rev", "star_last", "mixed"][i % 6])
         if not any(st["k"] == "eq" for st in s["stmts"]):
             continue
         cs.append(s)
